@@ -14,7 +14,7 @@ import torch
 from harness import wave_common as W
 
 PROPS = ['C03_linear', 'C03_zero_to_zero', 'C03_linear_numpy_fresnel', 'C03_linear_numpy_impulse_response',
-         'C03_linear_fraunhofer', 'C03_shift_equivariant']
+         'C03_linear_fraunhofer', 'C03_shift_equivariant', 'C03_upsample_linear', 'C03_upsample_zero']
 T_METHODS = ['Angular Spectrum', 'Bandlimited Angular Spectrum', 'Transfer Function Fresnel', 'Impulse Response Fresnel',
              'Seperable Impulse Response Fresnel', 'Incoherent Angular Spectrum', 'custom', 'Fraunhofer']
 N_METHODS = ['Angular Spectrum', 'Bandlimited Angular Spectrum', 'Transfer Function Fresnel', 'Impulse Response Fresnel', 'Fraunhofer',
@@ -34,7 +34,7 @@ def make_P(inp):
             kernel = torch.tensor(rng.standard_normal((h, w)) + 1j * rng.standard_normal((h, w)), dtype=torch.complex64)
         if inp.get('aperture'):
             ap = torch.tensor(rng.uniform(0, 1, (h, w)), dtype=torch.float32)
-        return lambda x: W.t_prop(x, m, z, dx, lam, aperture=ap, kernel=kernel, samples=(2, 2, 1, 1))
+        return lambda x: W.t_prop(x, m, z, dx, lam, aperture=ap, kernel=kernel, samples=(2, 2, 1, 1), scale=inp.get('scale', 1))
     if api == 'propagator':
         from odak.learn.wave import propagator
         h, w = inp['shape'][-2:]
@@ -107,6 +107,8 @@ def gen_inputs(ctx, n):
             shp = ([2] + shape) if (i % 3 == 0 and m not in ('Fraunhofer',)) else shape
             base = {'api': 'torch', 'method': m, 'shape': shp, 'lam': lam, 'dx': dx, 'z': z, 'fseed': rng.randrange(10 ** 6), 'aperture': i % 2 == 1 and m != 'Fraunhofer'}
             out.append(('linear', dict(base, special='a0' if i % 5 == 4 else None)))
+            if m in ('Impulse Response Fresnel', 'Seperable Impulse Response Fresnel') and max(shape) <= 8:
+                out.append(('linear', dict(base, shape=shape, scale=2 + (i % 2), aperture=False, fseed=rng.randrange(10 ** 6))))
             if m != 'Fraunhofer':
                 out.append(('shift', dict(base, shape=shape, shift=[rng.randint(-shape[0], shape[0]), rng.randint(-shape[1], shape[1])])))
         for m in N_METHODS:
@@ -130,9 +132,17 @@ def run(ctx):
     ctx.trusted += ['tracer (see C01)', 'float rounding not modelled: superposition within %g (float32) / %g (float64)' % (TOL['torch'], TOL['numpy']),
                     'scale > 1 (upsampling) paths and Fourier-domain padding are exercised by oracles only / excluded by the statement']
     ctx.gate()
-    ctx.ensure_theories(['theories/C03/Props.vo'])
+    ctx.ensure_theories(['theories/C03/Props.vo'], extra_dirs=['C09'])
     ctx.theorems('OdakV.C03.Props', PROPS)
     W.trace_and_tie(ctx)
+    try:
+        from tracer.recipes import wave as recipe
+        gu = recipe.upsampled()
+        ctx.programs += len(gu.defs)
+        ctx.obligation('translator:trace-upsampling(scale=2 path of both impulse-response methods, %d definitions)' % len(gu.defs), True)
+        ctx.compile_tie('GenWaveUp', gu.text(), [['Wave_TieUp']])
+    except Exception as e:
+        ctx.obligation('translator:trace-upsampling', False, repr(e))
     W.dft_instance(ctx)
     W.fft_contracts(ctx)
     for name, inp in gen_inputs(ctx, 40 if ctx.thorough else 8):
